@@ -39,6 +39,9 @@ fn main() {
             // the same workloads against a LIVE worker (few stalls): silent discards on the receiver's side
             // (idle path, hand-off) only show when the worker actually runs
             s.gen("e7-os-threads-live", s.n(12_000, 300_000), || e7::workload(1), |c, cx| e7::check(c, Prop::C09, cx));
+            // hand-back deadline after a lost wake-up (cases sleep for seconds; one per thread)
+            s.require("deadline:handed-back-on-time", 2);
+            s.gen("e7-blocking-send-deadline", s.n(2, 40), e7::deadline_batch, |c, cx| e7::check_deadline(c, cx));
             s.gen("e7-os-threads", s.n(3_000, 150_000), || e7::workload(8), |c, cx| e7::check(c, Prop::C09, cx));
         },
     )
